@@ -814,7 +814,7 @@ static void gen_wrapper(rng &r, const std::string &tier)
     gen(r, tier);
     if (tier != "thorough") return;
     uint64_t part = g_seed % NPART, span = (1ull << 32) / NPART;
-    const uint64_t CH = 1ull << 21;
+    const uint64_t CH = 1ull << 18; // ~0.1 s per op: far below the 3 s per-op watchdog even on a loaded machine
     for (int k : {I32, U32})
         for (unsigned base : {10u, 16u})
             for (uint64_t lo = part * span; lo < (part + 1) * span; lo += CH)
